@@ -3,27 +3,27 @@
 and write seeded/MATRIX.md from the confirmation and detection logs."""
 import json, os, re, shutil, sys
 SRC, DST = "/tmp/seedout", "/verif/seeded"
-SOURCES = [("/tmp/seedout", ""), ("/tmp/seedout2", "r2-"), ("/tmp/seedout3", "r3-"), ("/tmp/seedout4", "r4-"), ("/tmp/seedout5", "r5-"), ("/tmp/seedout6", "r6-")]
+SOURCES = [("/tmp/seedout", ""), ("/tmp/seedout2", "r2-"), ("/tmp/seedout3", "r3-"), ("/tmp/seedout4", "r4-"), ("/tmp/seedout5", "r5-"), ("/tmp/seedout6", "r6-"), ("/tmp/seedout7", "r7-")]
 confirm = {}
 for l in open("/tmp/confirm.log"):
     f = l.split()
     if f:
         confirm[f[0]] = " ".join(f[1:])
-for extra in ("/tmp/confirm_extra.log", "/tmp/confirm2.log", "/tmp/confirm3.log", "/tmp/confirm4.log", "/tmp/confirm5.log", "/tmp/confirm6.log"):
+for extra in ("/tmp/confirm_extra.log", "/tmp/confirm2.log", "/tmp/confirm3.log", "/tmp/confirm4.log", "/tmp/confirm5.log", "/tmp/confirm6.log", "/tmp/confirm7.log"):
     if os.path.exists(extra):
         for l in open(extra):
             f = l.split()
             if f:
                 confirm[f[0]] = " ".join(f[1:])
 matrix = {}
-for ml in ("/tmp/matrix.log", "/tmp/matrix4.log", "/tmp/matrix6.log", "/tmp/matrix9.log", "/tmp/matrix11.log", "/tmp/matrix13.log"):
+for ml in ("/tmp/matrix.log", "/tmp/matrix4.log", "/tmp/matrix6.log", "/tmp/matrix9.log", "/tmp/matrix11.log", "/tmp/matrix13.log", "/tmp/matrix15.log"):
     if os.path.exists(ml):
         for l in open(ml):
             f = l.split()
             if len(f) >= 3:
                 matrix.setdefault(f[0], []).append(" ".join(f[1:]))
 first_round2 = {}
-for ml in ("/tmp/matrix2.log", "/tmp/matrix3.log", "/tmp/matrix5.log", "/tmp/matrix8.log", "/tmp/matrix10.log", "/tmp/matrix12.log"):
+for ml in ("/tmp/matrix2.log", "/tmp/matrix3.log", "/tmp/matrix5.log", "/tmp/matrix8.log", "/tmp/matrix10.log", "/tmp/matrix12.log", "/tmp/matrix14.log"):
     if os.path.exists(ml):
         for l in open(ml):
             f = l.split()
